@@ -984,3 +984,239 @@ func VerifC15PPSExt(shape, class int) {
 	}
 	vfy.Cover("pps ext compared")
 }
+
+// VerifC15PBSlice: P, B, SP and SI slice headers (7.3.3, 7.3.3.1, 7.3.3.2, 7.3.3.3): the parser
+// stores only part of this syntax, so the check is that every stored element has the coded value
+// and that the elements after the variable-length tables (cabac_init_idc, slice_qp_delta,
+// deblocking) and the header size come out right, i.e. every table was consumed exactly.
+// kind: 0 P, 1 B, 3 SP, 4 SI (+5: all slices of the picture have this type).
+// shape bits: 1 num_ref_idx override, 2 two entries in list 0, 4 two entries in list 1,
+// 8 list-0 modification, 16 list-1 modification, 32 weighted prediction, 64 luma weights,
+// 128 chroma weights, 256 adaptive ref pic marking, 512 nal_ref_idc 0, 1024 CABAC,
+// 2048 deblocking control, 4096|8192 disable_deblocking_filter_idc, 16384 monochrome.
+func VerifC15PBSlice(kind, shape, class int) {
+	c15Begin(class)
+	sb := func(k uint) bool { return (shape>>k)&1 == 1 }
+	c15FixChroma = 1
+	variant := 0
+	if sb(14) {
+		c15FixChroma, variant = 0, 1 // chroma_format_idc 0 needs the high-profile syntax
+	}
+	s := c15GenSPS(variant, true)
+	c15FixChroma = -1
+	spsNalu := s.serialize()
+	sps, err := ParseSPSNALUnit(spsNalu, true)
+	vfy.Assert(err == nil, "SPS parses")
+	if err != nil {
+		return
+	}
+	spsMap := map[uint32]*SPS{uint32(sps.ParameterID): sps}
+	p := c15GenPPS(s.id, false)
+	vfy.Assume(p.id.v != s.id.v)
+	st := kind % 5
+	isP, isB, isSP, isSI := st == 0, st == 1, st == 3, st == 4
+	n0, n1 := 1, 1
+	if sb(1) {
+		n0 = 2
+	}
+	if sb(2) {
+		n1 = 2
+	}
+	override := sb(0)
+	p.l0, p.l1 = c15C(uint64(n0-1)), c15C(uint64(n1-1)) // defaults (used when not overridden)
+	if override {
+		p.l0, p.l1 = c15C(uint64(2-n0)), c15C(uint64(2-n1)) // defaults differ from the coded counts
+	}
+	p.bottomField, p.redundant = false, false
+	p.wp = sb(5)
+	p.wbi = 0
+	if sb(5) {
+		p.wbi = 1
+	}
+	p.cabac, p.deblock = sb(10), sb(11)
+	ppsNalu := p.serialize()
+	pps, err := ParsePPSNALUnit(ppsNalu, spsMap)
+	vfy.Assert(err == nil, "PPS parses")
+	if err != nil {
+		return
+	}
+	ppsMap := map[uint32]*PPS{uint32(pps.PicParameterSetID): pps}
+
+	w := &c15Bits{}
+	firstMB := c15UE("firstmb", 8000)
+	w.ue(firstMB)
+	w.ue(c15C(uint64(kind)))
+	w.ue(p.id)
+	fnBits := int(s.log2fn.v) + 4
+	frameNum := uint64(vfy.U16("framenum")) & ((1 << uint(fnBits)) - 1)
+	w.u(frameNum, fnBits)
+	pb := int(s.log2poc.v) + 4
+	pocLsb := uint64(vfy.U16("poclsb")) & ((1 << uint(pb)) - 1)
+	w.u(pocLsb, pb)
+	direct := false
+	if isB {
+		direct = vfy.Bool("direct")
+		w.flag(direct)
+	}
+	if isP || isSP || isB {
+		w.flag(override)
+		if override {
+			w.ue(c15C(uint64(n0 - 1)))
+			if isB {
+				w.ue(c15C(uint64(n1 - 1)))
+			}
+		}
+	}
+	mods := func(present bool, tag string) {
+		w.flag(present)
+		if !present {
+			return
+		}
+		w.ue(c15C(uint64(vfy.Choose(tag+".idc", 2)))) // 0 / 1: abs_diff_pic_num_minus1
+		w.ue(c15UE(tag+".absdiff", 1000))
+		w.ue(c15C(2)) // long_term_pic_num
+		w.ue(c15UE(tag+".ltpn", 30))
+		w.ue(c15C(3)) // end of the loop
+	}
+	if !isSI {
+		mods(sb(3), "mod0")
+	}
+	if isB {
+		mods(sb(4), "mod1")
+	}
+	chromaArrayType := s.chroma.v
+	var lumaDenom, chromaDenom c15V
+	weighted := (p.wp && (isP || isSP)) || (p.wbi == 1 && isB)
+	if weighted {
+		lumaDenom = c15UE("lumadenom", 7)
+		w.ue(lumaDenom)
+		if chromaArrayType != 0 {
+			chromaDenom = c15UE("chromadenom", 7)
+			w.ue(chromaDenom)
+		}
+		table := func(n int, tag string) {
+			for i := 0; i < n; i++ {
+				lw := sb(6) && i == 0
+				w.flag(lw)
+				if lw {
+					w.ue(c15SE(tag+".lw", 255))
+					w.ue(c15SE(tag+".lo", 255))
+				}
+				if chromaArrayType != 0 {
+					cw := sb(7) && i == n-1
+					w.flag(cw)
+					if cw {
+						for j := 0; j < 2; j++ {
+							w.ue(c15SE(tag+".cw", 255))
+							w.ue(c15SE(tag+".co", 255))
+						}
+					}
+				}
+			}
+		}
+		table(n0, "w0")
+		if isB {
+			table(n1, "w1")
+		}
+	}
+	refIDC := byte(2)
+	if sb(9) {
+		refIDC = 0
+	}
+	adaptive := false
+	if refIDC != 0 {
+		adaptive = sb(8)
+		w.flag(adaptive)
+		if adaptive {
+			w.ue(c15C(1))
+			w.ue(c15UE("mmco1.diff", 1000))
+			w.ue(c15C(2))
+			w.ue(c15UE("mmco2.ltpn", 30))
+			w.ue(c15C(3))
+			w.ue(c15UE("mmco3.diff", 1000))
+			w.ue(c15UE("mmco3.ltfi", 15))
+			w.ue(c15C(4))
+			w.ue(c15UE("mmco4.max", 16))
+			w.ue(c15C(5))
+			w.ue(c15C(6))
+			w.ue(c15UE("mmco6.ltfi", 15))
+			w.ue(c15C(0))
+		}
+	}
+	var cabacInit c15V
+	if p.cabac && !isSI {
+		cabacInit = c15UE("cabacinit", 2)
+		w.ue(cabacInit)
+	}
+	qpd := c15SE("qpd", 100)
+	w.ue(qpd)
+	spSwitch := false
+	var qsd c15V
+	if isSP || isSI {
+		if isSP {
+			spSwitch = vfy.Bool("spswitch")
+			w.flag(spSwitch)
+		}
+		qsd = c15SE("qsd", 100)
+		w.ue(qsd)
+	}
+	var alpha, beta c15V
+	dbIDC := uint64((shape >> 12) & 3)
+	if dbIDC == 3 {
+		dbIDC = 0
+	}
+	if p.deblock {
+		w.ue(c15C(dbIDC))
+		if dbIDC != 1 {
+			alpha, beta = c15SE("alpha", 12), c15SE("beta", 12)
+			w.ue(alpha)
+			w.ue(beta)
+		}
+	}
+	hdrBits := len(w.bits)
+	w.u(uint64(vfy.U8("data")), 8)
+	nalu := w.bytes(refIDC<<5 | 1)
+	sh, err := ParseSliceHeader(nalu, spsMap, ppsMap)
+	vfy.Assert(err == nil, "P/B/SP/SI slice header parses")
+	if err != nil {
+		return
+	}
+	vfy.Assert(uint64(sh.SliceType) == uint64(kind) && uint64(sh.FirstMBInSlice) == firstMB.v && uint64(sh.PicParamID) == p.id.v, "slice_type / first_mb / pps id")
+	vfy.Assert(uint64(sh.FrameNum) == frameNum && uint64(sh.PicOrderCntLsb) == pocLsb, "frame_num / pic_order_cnt_lsb")
+	vfy.Assert(sh.DirectSpatialMvPredFlag == direct, "direct_spatial_mv_pred_flag")
+	if isP || isSP || isB {
+		vfy.Assert(sh.NumRefIdxActiveOverrideFlag == override, "num_ref_idx_active_override_flag")
+		vfy.Assert(int(sh.NumRefIdxL0ActiveMinus1) == n0-1, "num_ref_idx_l0_active_minus1 (coded, or the PPS default)")
+		if isB {
+			vfy.Assert(int(sh.NumRefIdxL1ActiveMinus1) == n1-1, "num_ref_idx_l1_active_minus1 (coded, or the PPS default)")
+		}
+	}
+	if !isSI {
+		vfy.Assert(sh.RefPicListModificationL0Flag == sb(3), "ref_pic_list_modification_flag_l0")
+	}
+	if isB {
+		vfy.Assert(sh.RefPicListModificationL1Flag == sb(4), "ref_pic_list_modification_flag_l1")
+	}
+	if weighted {
+		vfy.Assert(uint64(sh.LumaLog2WeightDenom) == lumaDenom.v, "luma_log2_weight_denom")
+		if chromaArrayType != 0 {
+			vfy.Assert(uint64(sh.ChromaLog2WeightDenom) == chromaDenom.v, "chroma_log2_weight_denom")
+		}
+	}
+	vfy.Assert(sh.AdaptiveRefPicMarkingModeFlag == adaptive, "adaptive_ref_pic_marking_mode_flag")
+	if p.cabac && !isSI {
+		vfy.Assert(uint64(sh.CabacInitIDC) == cabacInit.v, "cabac_init_idc")
+	}
+	vfy.Assert(int64(sh.SliceQPDelta) == qpd.signed(), "slice_qp_delta (after the tables)")
+	if isSP || isSI {
+		vfy.Assert(sh.SPForSwitchFlag == spSwitch && int64(sh.SliceQSDelta) == qsd.signed(), "sp_for_switch_flag / slice_qs_delta")
+	}
+	if p.deblock {
+		vfy.Assert(uint64(sh.DisableDeblockingFilterIDC) == dbIDC, "disable_deblocking_filter_idc")
+		if dbIDC != 1 {
+			vfy.Assert(int64(sh.SliceAlphaC0OffsetDiv2) == alpha.signed() && int64(sh.SliceBetaOffsetDiv2) == beta.signed(), "slice alpha / beta offsets")
+		}
+	}
+	vfy.Assert(int(sh.Size) == 1+(hdrBits+7)/8, "slice header size in bytes")
+	vfy.Cover("pb slice compared")
+}
